@@ -137,7 +137,10 @@ SPEC = {
         "elab_rejects_assign_to_const", "elab_rejects_assign_to_rvalue", "elab_rejects_increment",
         "elab_rejects_call", "elab_rejects_arity", "elab_rejects_unconvertible", "elab_rejects_out_arg_rvalue",
         "elab_rejects_out_arg_const", "elab_rejects_return_type", "elab_rejects_return_void",
-        "assignment_operands", "binary_operands_equal", "binop_rules"]],
+        "elab_rejects_assign_to_rvalue_form", "elab_rejects_increment_of_rvalue_form",
+        "assignment_operands", "binary_operands_equal", "binop_rules",
+        "elab_assign_exact", "elab_arith_exact", "elab_call_args_exact",
+        "out_arg_receives_cast", "release_accepts_ill_typed"]],
     "harness": "c03",
     "nontrivial": nontrivial,
     "finding_key": finding_key,
